@@ -54,6 +54,52 @@ def check(pc, goal, timeout_ms=None, want_model=True, tracked=False, mbqi=False)
     return str(r), dt, model, s
 
 
+def check_lazy(pc, goal, timeout_ms=20000, step_ms=4000, max_iter=60):
+    """Model search for a quantifier-free set of hypotheses by lazy hypothesis addition: solve a
+    small subset (starting from the negated goal), evaluate every other hypothesis under the total
+    extension of the model, add the violated ones, repeat.  `sat` comes with a model under which
+    every hypothesis evaluates to true and the goal to false (so it is a model of the whole set);
+    `unsat` of a subset is `unsat` of the set.  Small queries keep z3's sequence solver responsive."""
+    t0 = time.time()
+    rest = [p for p in pc if not z3.is_true(p)]
+    active = []
+    neg = z3.Not(goal) if goal is not None else None
+    model = None
+    for it in range(max_iter):
+        left = timeout_ms / 1000.0 - (time.time() - t0)
+        if left <= 0:
+            return "unknown", time.time() - t0, None, None
+        s = z3.Solver()
+        s.set("timeout", int(min(step_ms, left * 1000)))
+        s.set("random_seed", 0)
+        for p in active:
+            s.add(p)
+        if neg is not None:
+            s.add(neg)
+        r = s.check()
+        if r == z3.unsat:
+            return "unsat", time.time() - t0, None, s
+        if r != z3.sat:
+            return "unknown", time.time() - t0, None, s
+        model = s.model()
+        bad = []
+        for p in rest:
+            try:
+                v = model.eval(p, model_completion=True)
+            except Exception:  # noqa: BLE001
+                v = None
+            if v is None or not z3.is_true(v):
+                bad.append(p)
+                if len(bad) >= 6:
+                    break
+        if not bad:
+            return "sat", time.time() - t0, model, s
+        ids = {b.get_id() for b in bad}
+        active.extend(bad)
+        rest = [p for p in rest if p.get_id() not in ids]
+    return "unknown", time.time() - t0, None, None
+
+
 def ground_axioms(pc, goal, cap=40):
     """small-scope mode: replace the (few) quantified type axioms by their instances over the
     ground terms of the right sort that occur in the query; quantifier-free afterwards"""
@@ -270,7 +316,7 @@ def extract_inputs(ctx, model, entry):
     return inputs
 
 
-def worker(task, emit=None, skip=()):
+def worker(task, emit=None, skip=(), refute=()):
     """all obligations of one shard of one function / lemma.  `emit` (optional) is told about
     every obligation before it starts and after it finishes, so that a supervisor can kill a
     solver call that ignores its time-out and resume behind it (`skip`)."""
@@ -302,7 +348,11 @@ def worker(task, emit=None, skip=()):
                 cctx, cobls = cov[0], cov[1]
                 co = cobls[i]
                 assert co.name == o.name
-                r, dt, model, s = check(tuple(ground_axioms(tuple(co.pc) + tuple(cov[2]), None)), None, min(timeout_ms, 2000), want_model=False)
+                cqf = ground_axioms(tuple(co.pc) + tuple(cov[2]), None)
+                if has_quantifier(cqf):
+                    r, dt, model, s = check(tuple(cqf), None, min(timeout_ms, 2000), want_model=False)
+                else:
+                    r, dt, model, s = check_lazy(tuple(cqf), None, min(timeout_ms, 6000), step_ms=2000)
             except Exception as e:
                 r, dt = "unknown", 0.0
             results.append(dict(name=o.name, line=o.line, kind="cover", result=r, s=round(dt, 3), backend="z3-5.1.0"))
@@ -317,6 +367,11 @@ def worker(task, emit=None, skip=()):
         goal_q = has_quantifier([o.goal])
         r, dt, model, s = "unknown", 0.0, None, None
         stages = [("full", 4000), ("light", 10000), ("light-tracked", 10000)] if goal_q else [("light", 10000), ("light-tracked", 10000), ("full", 4000)]
+        if i in refute:
+            # a proof attempt of this obligation was killed (solver ignored its time-out, typical for
+            # satisfiable sequence queries): go straight to the quantifier-free small-scope search
+            stages = []
+            s = None
         for which, budget in stages:
             if which.startswith("light"):
                 if len(light) == len(o.pc) and which == "light":
@@ -333,7 +388,7 @@ def worker(task, emit=None, skip=()):
                     break
         if s is None:
             r0, dt2, model0, s = check(o.pc, o.goal, 1) if r == "unsat" else (r, 0, None, None)
-        long_pending = r == "unknown"
+        long_pending = r == "unknown" and i not in refute
         backend = "z3-5.1.0"
         quant = None
         rec = dict(name=o.name, line=o.line, kind="assert", note=o.note)
@@ -349,7 +404,7 @@ def worker(task, emit=None, skip=()):
         if r == "unknown":
             # (a) look for a small-scope counterexample (quantifiers expanded, recursion unrolled,
             # so a model is real); a ladder of scopes: the small one answers in milliseconds
-            for K in (COVER_K, SCOPE_K):
+            for K in (1, COVER_K, SCOPE_K):
                 try:
                     if K not in cexs:
                         g = generate(mods, kind, key, K)
@@ -360,7 +415,10 @@ def worker(task, emit=None, skip=()):
                     # the only quantifiers left in small-scope mode are the sidecar's type axioms:
                     # model-based instantiation decides them; the model is validated below and replayed
                     qf = ground_axioms(tuple(co.pc) + tuple(cexs[K][5]), co.goal)
-                    r2, dt2, model2, _ = check(tuple(qf), co.goal, min(timeout_ms, 30000))
+                    if has_quantifier(qf):
+                        r2, dt2, model2, _ = check(tuple(qf), co.goal, min(timeout_ms, 30000))
+                    else:
+                        r2, dt2, model2, _ = check_lazy(tuple(qf), co.goal, min(timeout_ms, 30000))
                     if r2 == "sat" and not model_ok(model2, qf, co.goal, [p for p in co.pc if z3.is_quantifier(p)]):
                         r2 = "unknown"
                         rec["small_scope_note"] = "model rejected: violates a quantified type axiom or does not falsify the goal"
@@ -391,7 +449,7 @@ def worker(task, emit=None, skip=()):
             dt += dt2
             if r == "sat" and has_quantifier(list(o.pc) + [o.goal]):
                 r, model = "unknown", None
-        if r == "unknown":
+        if r == "unknown" and i not in refute:
             # (b) second attempt with a doubled budget and another seed, then other solvers
             t0 = time.time()
             r2, _, _, _ = check(light, o.goal, 2 * timeout_ms)
@@ -431,9 +489,9 @@ def _serve(conn):
             return
         if msg is None:
             return
-        task, skip = msg
+        task, skip, refute = msg
         try:
-            res = worker(task, emit=conn.send, skip=skip)
+            res = worker(task, emit=conn.send, skip=skip, refute=refute)
             res["results"] = []
             conn.send(("done", res))
         except Exception:  # noqa: BLE001
@@ -472,7 +530,7 @@ def run_all(mods, contract_keys, lemma_names=(), jobs=16, shards=None, timeout_m
 
     shards = shards or {}
     timeout_ms = timeout_ms or TIMEOUT_MS
-    deadline_s = deadline_s or int(os.environ.get("PYVC_DEADLINE_S", str(8 * timeout_ms // 1000 + 60)))
+    deadline_s = deadline_s or int(os.environ.get("PYVC_DEADLINE_S", str(3 * timeout_ms // 1000 + 60)))
     tasks = []
     for key in contract_keys:
         n = shards.get(key, 1)
@@ -488,7 +546,7 @@ def run_all(mods, contract_keys, lemma_names=(), jobs=16, shards=None, timeout_m
     state = {}  # task index -> dict(results, skip, cur, summary)
     queue = list(range(len(tasks)))
     for ti in queue:
-        state[ti] = dict(results=[], skip=set(), cur=None, summary=None, kills=0)
+        state[ti] = dict(results=[], skip=set(), refute=set(), cur=None, summary=None, kills=0)
     slots = [_Slot(ctxm) for _ in range(min(jobs, len(tasks)))]
     pending = len(tasks)
 
@@ -499,7 +557,7 @@ def run_all(mods, contract_keys, lemma_names=(), jobs=16, shards=None, timeout_m
         slot.task = ti
         slot.t0 = time.time()
         state[ti]["cur"] = None
-        slot.conn.send((tasks[ti], frozenset(state[ti]["skip"])))
+        slot.conn.send((tasks[ti], frozenset(state[ti]["skip"]), frozenset(state[ti]["refute"])))
 
     for sl in slots:
         dispatch(sl)
@@ -543,7 +601,10 @@ def run_all(mods, contract_keys, lemma_names=(), jobs=16, shards=None, timeout_m
                 sl.kill()
                 cur = st["cur"]
                 st["kills"] += 1
-                if cur is not None:
+                if cur is not None and cur[3] != "cover" and cur[1] not in st["refute"] and st["kills"] <= 12:
+                    st["refute"].add(cur[1])  # once more, refutation search only
+                    queue.insert(0, ti)
+                elif cur is not None:
                     _, i, name, kind, line, note = cur
                     st["results"].append(dict(name=name, line=line, kind=kind if kind == "cover" else "assert", note=note, result="unknown", s=round(now - sl.t0, 1), backend=why))
                     st["skip"].add(i)
